@@ -14,7 +14,7 @@ def forward_loops(body, tr, pattern):
             t = body.term(b)
             if t["k"] == "call" and is_callee(t, r"Iterator::next$|Iterator>::next$"):
                 s = canon(tr.operand(t["args"][0]))
-                m = re.match(r"^&IntoIterator::into_iter\(&?\*?\*?(.*)\)$", s)
+                m = re.match(r"^&IntoIterator::into_iter\(&?\*?\*?(.*)\)$", s) or re.match(r"^&slice::iter\(&\*Deref::deref\(&?\*?\*?(.*)\)\)$", s)
                 if m and re.search(pattern, m.group(1)) and not re.search(r"\b(rev|skip|take|filter|step_by|chain|zip|enumerate|map)\(", m.group(1)):
                     # the innermost loop containing this `next` is the loop it drives
                     if b not in best or len(bl) < len(best[b][1]):
